@@ -72,6 +72,9 @@ type xextern struct {
 	res      string   // result type ("" = only an error)
 	fallible bool     // can panic / returns an error ⇒ Option
 	noargs   bool     // the call's arguments are not evaluated (store reads keyed by ctx/denom: the result is an input)
+	argIdx   []int    // if set: only these argument positions (0-based) are evaluated and passed (ctx, ids, names are skipped)
+	field    bool     // key "T.Field": a field read of a value of opaque type T (a projection, not a call)
+	fresh    bool     // the result is an allocation handed over to the caller (e.g. the mutated argument of a …Mut function)
 }
 
 type xspec struct {
@@ -82,6 +85,17 @@ type xspec struct {
 	tymap              map[string]string   // Go type text → type name (opaque types, struct types)
 	structs            map[string][]xparam // struct type → fields (key = Go field, name = Lean suffix, ty)
 	doc                string
+	ignore             []string // side-effect-only statements (telemetry, logging): normalised callee or bare method name
+	outs               []xparam // fields the function writes through its pointer receiver: appended to the result tuple
+	loop               *xloop   // translate the BODY of the function's single top-level `for … range` loop
+}
+
+// xloop: loop-body mode.  The loop key is $k, the loop value $v, the ranged-over local $r; a local declared before the
+// loop by `x := <init>` is named by `pre[norm(<init>)]`.  `state` are the variables / slice elements the body updates:
+// the generated definition takes their current values and returns the updated ones (`continue` returns them as they are).
+type xloop struct {
+	pre   map[string]string
+	state []xparam
 }
 
 type xdone struct {
@@ -90,6 +104,8 @@ type xdone struct {
 	hasErr bool
 	fresh  []bool // per result: every return path returns an allocation of the callee
 	text   string
+	// the function starts with `defer func() { if r := recover(); r != nil { err = … } }()`: a panic is an error return
+	recovers bool
 }
 
 var xregistry = map[string]*xdone{} // dir + ":" + fn
@@ -155,6 +171,14 @@ type xtr struct {
 	hasErr bool
 	fresh  []bool
 	named  []string // named results
+	aliases  map[string]string // local := <path rooted at a parameter>  (a struct copy that is only read)
+	state    map[string]xparam // normalised key → state variable / written receiver field
+	stateOrd []xparam
+	inLoop   bool
+	recovers bool
+	// the last `x, err := f()`: index of its binder in `pre`, and whether f turns its panics into errors
+	pendingPre      int
+	pendingRecovers bool
 }
 
 func (t *xtr) fail(f string, a ...any) {
@@ -169,6 +193,9 @@ func (t *xtr) norm(e ast.Expr) string {
 	switch e := e.(type) {
 	case *ast.Ident:
 		if s, ok := t.pnames[e.Name]; ok {
+			return s
+		}
+		if s, ok := t.aliases[e.Name]; ok {
 			return s
 		}
 		return e.Name
@@ -302,6 +329,7 @@ func init() {
 		methodOps[tm.ty] = tm.m
 	}
 	methodOps[tyTime] = map[string]xop{
+		"UTC":   pure1("%s", tyTime), // the instant is the value; the location does not enter comparisons
 		"Equal": cmp("(%s = %s)", tyTime), "After": cmp("(%s > %s)", tyTime), "Before": cmp("(%s < %s)", tyTime),
 		"Sub": {lean: "(%s - %s)", args: []string{tyTime}, res: tyDur},
 	}
@@ -408,8 +436,21 @@ func (t *xtr) externArgs(x *xextern, e *ast.CallExpr, env *xenv) []xval {
 	if x.noargs {
 		return nil
 	}
+	if x.argIdx != nil {
+		var out []xval
+		for _, i := range x.argIdx {
+			if i >= len(e.Args) {
+				t.fail("extern %s: no argument %d in %s", x.key, i, show(e))
+			}
+			out = append(out, t.expr(e.Args[i], env))
+		}
+		return out
+	}
 	return t.exprs(e.Args, env)
 }
+
+// a value passed where the Lean side expects a `Bool` (booleans are propositions inside the translation)
+func boolArg(v xval) string { return "(decide " + v.lean + ")" }
 
 // peekTy: the type of a variable / bound expression without emitting anything ("" if unknown)
 func (t *xtr) peekTy(e ast.Expr, env *xenv) string {
@@ -431,13 +472,39 @@ func (t *xtr) callExtern(x *xextern, args []xval, at ast.Node) xval {
 		if !compat(x.args[i], a.ty) {
 			t.fail("extern %s: argument %d has type %s, expected %s in %s", x.key, i, a.ty, x.args[i], show(at))
 		}
-		parts = append(parts, a.lean)
+		if a.ty == tyBool {
+			parts = append(parts, boolArg(a))
+		} else {
+			parts = append(parts, a.lean)
+		}
 	}
 	call := strings.Join(parts, " ")
+	var r xval
 	if x.fallible {
-		return xval{lean: t.bind(call), ty: x.res}
+		r = xval{lean: t.bind(call), ty: x.res}
+	} else {
+		r = xval{lean: "(" + call + ")", ty: x.res}
 	}
-	return xval{lean: "(" + call + ")", ty: x.res}
+	if x.res == tyBool {
+		r.lean = "(" + r.lean + " = true)"
+	}
+	if x.fresh {
+		r.alloc = t.newAlloc()
+	}
+	return r
+}
+
+// isState: the normalised expression names a state variable (loop mode) or a written receiver field
+func (t *xtr) isState(key string) bool { _, ok := t.state[key]; return ok }
+
+func (t *xtr) stateVal(key string, env *xenv) (xval, bool) {
+	if v, ok := env.vars["#"+key]; ok {
+		return v, true
+	}
+	if b, ok := t.binds[key]; ok {
+		return t.param(b), true
+	}
+	return xval{}, false
 }
 
 // the registry entry of a callee named by a call's Fun expression (same package or imported package)
@@ -483,15 +550,39 @@ func (t *xtr) callDone(d *xdone, argExprs []ast.Expr, env *xenv, at ast.Node) []
 	parts := []string{"OsmoVerif.Gen." + d.spec.mod + "." + d.spec.lean}
 	for _, x := range d.spec.externs {
 		mine := t.externByKey(x.key)
+		if mine == nil { // the same callee seen from another package ("TickToSqrtPrice" / "math.TickToSqrtPrice"): same Lean name
+			for i := range t.spec.externs {
+				if t.spec.externs[i].name == x.name && strings.HasSuffix(t.spec.externs[i].key, "."+x.key) {
+					mine = &t.spec.externs[i]
+				}
+			}
+		}
 		if mine == nil {
 			t.fail("callee %s needs extern %s which this function does not declare", d.spec.fn, x.key)
 		}
 		parts = append(parts, mine.name)
 	}
 	for _, pr := range d.spec.params {
+		if j, path, ok := argPath(pr.key); ok && j >= 1 && j <= len(argExprs) {
+			// a field of the callee's j-th parameter: the same field of the caller's j-th argument
+			k2 := t.norm(argExprs[j-1]) + "." + path
+			if v, ok := t.stateVal(k2, env); ok && compat(pr.ty, v.ty) {
+				parts = append(parts, leanArg(v))
+				continue
+			}
+			if v, ok := env.vars[identName(argExprs[j-1])+"."+path]; ok && compat(pr.ty, v.ty) {
+				parts = append(parts, leanArg(v))
+				continue
+			}
+			t.fail("callee %s reads %s: %s is not available here", d.spec.fn, pr.key, k2)
+		}
 		if !strings.HasPrefix(pr.key, "$") || strings.ContainsAny(pr.key, ".(") {
 			// a keeper read such as $0.GetParams($1).X: the caller must read the very same thing
 			// (same receiver, ctx in the same position) and bind it itself
+			if v, ok := t.stateVal(pr.key, env); ok && strings.HasPrefix(pr.key, "$0.") && compat(pr.ty, v.ty) {
+				parts = append(parts, leanArg(v))
+				continue
+			}
 			mine, ok := t.binds[pr.key]
 			if !ok || mine.ty != pr.ty || !strings.HasPrefix(pr.key, "$0.") {
 				t.fail("callee %s has a non-positional parameter %s which this function does not bind identically", d.spec.fn, pr.key)
@@ -507,11 +598,17 @@ func (t *xtr) callDone(d *xdone, argExprs []ast.Expr, env *xenv, at ast.Node) []
 		if !compat(pr.ty, args[i-1].ty) {
 			t.fail("callee %s: argument %d has type %s, expected %s in %s", d.spec.fn, i, args[i-1].ty, pr.ty, show(at))
 		}
-		parts = append(parts, args[i-1].lean)
+		parts = append(parts, leanArg(args[i-1]))
 	}
 	r := t.bind(strings.Join(parts, " "))
+	if len(d.resTys) == 0 {
+		return nil
+	}
 	if len(d.resTys) == 1 {
 		v := xval{lean: r, ty: d.resTys[0]}
+		if v.ty == tyBool {
+			v.lean = "(" + r + " = true)"
+		}
 		if d.fresh[0] {
 			v.alloc = t.newAlloc()
 		}
@@ -526,6 +623,29 @@ func (t *xtr) callDone(d *xdone, argExprs []ast.Expr, env *xenv, at ast.Node) []
 		out = append(out, v)
 	}
 	return out
+}
+
+func leanArg(v xval) string {
+	if v.ty == tyBool {
+		return boolArg(v)
+	}
+	return v.lean
+}
+
+// argPath: "$2.NumShares" → (2, "NumShares"); keys with calls are keeper reads, not argument fields
+func argPath(key string) (int, string, bool) {
+	if !strings.HasPrefix(key, "$") || strings.ContainsAny(key, "(") {
+		return 0, "", false
+	}
+	i := strings.Index(key, ".")
+	if i < 0 {
+		return 0, "", false
+	}
+	var j int
+	if n, _ := fmt.Sscanf(key[:i], "$%d", &j); n != 1 || j == 0 {
+		return 0, "", false
+	}
+	return j, key[i+1:], true
 }
 
 func tupleProj(r string, i, n int) string {
@@ -550,6 +670,17 @@ func (t *xtr) exprs(es []ast.Expr, env *xenv) []xval {
 var ctorPkgs = map[string]bool{"osmomath": true, "sdkmath": true, "math": true, "sdk": true}
 
 func (t *xtr) expr(e ast.Expr, env *xenv) xval {
+	if k := t.norm(e); t.isState(k) {
+		if v, ok := t.stateVal(k, env); ok {
+			return v
+		}
+		t.fail("%s is read before it is written and is not an input", k)
+	}
+	if id, ok := e.(*ast.Ident); ok {
+		if v, reassigned := env.vars[id.Name]; reassigned && t.pnames[id.Name] != "" {
+			return v // a scalar parameter that was assigned to
+		}
+	}
 	if b, ok := t.binds[t.norm(e)]; ok {
 		return t.param(b)
 	}
@@ -599,6 +730,11 @@ func (t *xtr) expr(e ast.Expr, env *xenv) xval {
 						return t.lit(v, e)
 					}
 				}
+			}
+		}
+		if ty := t.peekTy(e.X, env); ty != "" {
+			if x := t.externByKey(ty + "." + e.Sel.Name); x != nil && x.field {
+				return t.callExtern(x, []xval{t.expr(e.X, env)}, e)
 			}
 		}
 		if e.Sel.Name == "Amount" {
@@ -691,6 +827,8 @@ func (t *xtr) binary(e *ast.BinaryExpr, env *xenv) xval {
 		return xval{lean: "(" + x.lean + " - " + y.lean + ")", ty: ty}
 	case token.MUL:
 		return xval{lean: "(" + x.lean + " * " + y.lean + ")", ty: ty}
+	case token.REM: // Go's % truncates; a zero divisor is a run-time panic
+		return xval{lean: t.bind("I64.rem " + x.lean + " " + y.lean), ty: ty}
 	case token.EQL:
 		return xval{lean: "(" + x.lean + " = " + y.lean + ")", ty: tyBool}
 	case token.NEQ:
@@ -759,6 +897,13 @@ func (t *xtr) call(e *ast.CallExpr, env *xenv) []xval {
 			t.fail("unsupported method %s.%s in %s", recv.ty, f.Sel.Name, show(e))
 		}
 		args := t.exprs(e.Args, env)
+		if key := t.norm(f.X); o.mut && t.isState(key) {
+			// the mutation of a written receiver field / state variable IS the intended effect
+			recv.alloc = t.newAlloc()
+			r := t.applyOp(recv.ty+"."+f.Sel.Name, o, recv, args, env, e)
+			env.vars["#"+key] = r
+			return one(r)
+		}
 		return one(t.applyOp(recv.ty+"."+f.Sel.Name, o, recv, args, env, e))
 	}
 	t.fail("unsupported call %s", show(e))
@@ -905,8 +1050,19 @@ func (t *xtr) assign(name string, v xval, env *xenv, define bool, nested bool) {
 	if name == "_" {
 		return
 	}
-	if _, isParam := t.pnames[name]; isParam {
-		t.fail("assignment to parameter %s", name)
+	if pn, isParam := t.pnames[name]; isParam {
+		b, bound := t.binds[pn]
+		if !bound || define || !compat(b.ty, v.ty) || (b.ty != tyI64 && b.ty != tyDur) {
+			t.fail("assignment to parameter %s", name)
+		}
+		if v.ty == tyLit {
+			v.ty = b.ty
+		}
+		env.vars[name] = v // a native scalar parameter used as a local: later reads see the new value
+		return
+	}
+	if _, isAlias := t.aliases[name]; isAlias {
+		t.fail("assignment to %s, which the translation treats as a read-only copy", name)
 	}
 	_, known := env.vars[name]
 	dty, declared := env.declared[name]
@@ -931,6 +1087,12 @@ func (t *xtr) assign(name string, v xval, env *xenv, define bool, nested bool) {
 // seq translates a statement list to a Lean term of type `Option <result>`; depth > 0 inside a nested block
 func (t *xtr) seq(list []ast.Stmt, env *xenv, ind string, depth int) string {
 	if len(list) == 0 {
+		if t.inLoop && !env.errPending {
+			return t.retState(env, ind) // end of the loop body: next iteration
+		}
+		if len(t.resTys) == 0 && !t.hasErr && !env.errPending {
+			return t.retState(env, ind) // a procedure: only its writes are returned
+		}
 		t.fail("control reaches the end of the function without a return")
 	}
 	s, rest := list[0], list[1:]
@@ -939,15 +1101,34 @@ func (t *xtr) seq(list []ast.Stmt, env *xenv, ind string, depth int) string {
 		if !ok || is.Init != nil || !isErrNotNil(is.Cond) || is.Else != nil {
 			t.fail("a fallible call must be followed by `if err != nil { return …, err }`, found %s", show(s))
 		}
-		if len(is.Body.List) != 1 {
-			t.fail("error branch is not a single return: %s", show(is))
+		if len(is.Body.List) == 1 {
+			if rs, ok := is.Body.List[0].(*ast.ReturnStmt); ok {
+				// the error is propagated (possibly wrapped): `none`
+				if !t.hasErr || len(rs.Results) == 0 || identName(rs.Results[len(rs.Results)-1]) == "nil" {
+					t.fail("error branch does not return an error: %s", show(is))
+				}
+				env.errPending = false
+				return t.seq(rest, env, ind, depth)
+			}
 		}
-		rs, ok := is.Body.List[0].(*ast.ReturnStmt)
-		if !ok || !t.hasErr || len(rs.Results) == 0 || identName(rs.Results[len(rs.Results)-1]) != "err" {
-			t.fail("error branch does not return err: %s", show(is))
+		// the error is HANDLED (`continue`, a different return): only sound when an error of the callee is exactly
+		// the `none` of its translation, i.e. the callee converts its panics into errors (defer/recover)
+		if !t.pendingRecovers || t.pendingPre != len(t.pre)-1 {
+			t.fail("an error is handled without being returned, but the callee may also panic: %s", show(is))
 		}
+		last := t.pre[len(t.pre)-1]
+		t.pre = t.pre[:len(t.pre)-1]
+		i := strings.LastIndex(last, ") fun ")
+		if !strings.HasPrefix(last, "Option.bind (") || i < 0 {
+			t.fail("internal: unexpected binder %q", last)
+		}
+		call, tmp := last[len("Option.bind ("):i], strings.TrimSuffix(last[i+len(") fun "):], " =>")
+		head := t.flush(ind)
 		env.errPending = false
-		return t.seq(rest, env, ind, depth)
+		errEnv := env.clone()
+		errBody := t.seq(is.Body.List, errEnv, ind+"    ", depth+1) // must end in continue / return
+		okBody := t.seq(rest, env, ind+"  ", depth)
+		return head + ind + "match " + call + " with\n" + ind + "| none => " + paren(errBody, ind+"  ") + "\n" + ind + "| some " + tmp + " =>\n" + okBody
 	}
 	switch s := s.(type) {
 	case *ast.BlockStmt:
@@ -971,6 +1152,15 @@ func (t *xtr) seq(list []ast.Stmt, env *xenv, ind string, depth int) string {
 		}
 		return t.seq(rest, env, ind, depth)
 	case *ast.AssignStmt:
+		if (s.Tok == token.ADD_ASSIGN || s.Tok == token.SUB_ASSIGN) && len(s.Lhs) == 1 && len(s.Rhs) == 1 && identName(s.Lhs[0]) != "" {
+			op := token.ADD
+			if s.Tok == token.SUB_ASSIGN {
+				op = token.SUB
+			}
+			v := t.binary(&ast.BinaryExpr{X: s.Lhs[0], Op: op, Y: s.Rhs[0]}, env)
+			t.assign(identName(s.Lhs[0]), v, env, false, depth > 0)
+			return t.seq(rest, env, ind, depth)
+		}
 		if s.Tok != token.DEFINE && s.Tok != token.ASSIGN {
 			t.fail("unsupported assignment operator in %s", show(s))
 		}
@@ -982,6 +1172,7 @@ func (t *xtr) seq(list []ast.Stmt, env *xenv, ind string, depth int) string {
 				t.fail("unsupported multi-value assignment %s", show(s))
 			}
 			var vals []xval
+			recovers := false
 			if x := t.externByKey(t.norm(ce.Fun)); x != nil {
 				if !x.fallible {
 					t.fail("extern %s is not fallible but is assigned with err", x.key)
@@ -994,6 +1185,7 @@ func (t *xtr) seq(list []ast.Stmt, env *xenv, ind string, depth int) string {
 				}
 			} else if d := t.callee(ce.Fun); d != nil && d.hasErr {
 				vals = t.callDone(d, ce.Args, env, ce)
+				recovers = d.recovers
 			} else {
 				t.fail("unsupported multi-value assignment %s", show(s))
 			}
@@ -1007,10 +1199,25 @@ func (t *xtr) seq(list []ast.Stmt, env *xenv, ind string, depth int) string {
 				t.assign(identName(l), vals[i], env, def, depth > 0)
 			}
 			env.errPending = true
+			t.pendingRecovers, t.pendingPre = recovers, len(t.pre)-1
 			return t.seq(rest, env, ind, depth) // pending binds are flushed by the next if / return
 		}
 		if len(s.Lhs) != len(s.Rhs) {
 			t.fail("unsupported assignment %s", show(s))
+		}
+		// `body := rec.Body` where only fields of rec.Body are bound: an alias (a struct copy that is only read)
+		if len(s.Lhs) == 1 && def && identName(s.Lhs[0]) != "" {
+			if k := t.norm(s.Rhs[0]); strings.HasPrefix(k, "$") && t.isPathPrefix(k) {
+				switch s.Rhs[0].(type) {
+				case *ast.SelectorExpr, *ast.IndexExpr, *ast.Ident:
+					n := identName(s.Lhs[0])
+					if _, dup := t.aliases[n]; dup || env.vars[n].lean != "" {
+						t.fail("redefinition of %s", n)
+					}
+					t.aliases[n] = k
+					return t.seq(rest, env, ind, depth)
+				}
+			}
 		}
 		// struct copy `n := record`
 		if len(s.Lhs) == 1 {
@@ -1029,6 +1236,17 @@ func (t *xtr) seq(list []ast.Stmt, env *xenv, ind string, depth int) string {
 		}
 		vals := t.exprs(s.Rhs, env) // all right-hand sides first (parallel assignment)
 		for i, l := range s.Lhs {
+			if k := t.norm(l); t.isState(k) && !def {
+				if !compat(t.state[k].ty, vals[i].ty) {
+					t.fail("%s has type %s, assigned %s", k, t.state[k].ty, vals[i].ty)
+				}
+				v := vals[i]
+				if v.ty == tyLit {
+					v.ty = t.state[k].ty
+				}
+				env.vars["#"+k] = v
+				continue
+			}
 			switch l := l.(type) {
 			case *ast.Ident:
 				t.assign(l.Name, vals[i], env, def, depth > 0)
@@ -1063,7 +1281,29 @@ func (t *xtr) seq(list []ast.Stmt, env *xenv, ind string, depth int) string {
 		if ce, ok := s.X.(*ast.CallExpr); ok && identName(ce.Fun) == "panic" {
 			return t.flush(ind) + ind + "none\n"
 		}
+		if ce, ok := s.X.(*ast.CallExpr); ok && t.ignored(ce) {
+			return t.seq(rest, env, ind, depth) // telemetry / logging: no effect on the values
+		}
+		if ce, ok := s.X.(*ast.CallExpr); ok {
+			if se, ok := ce.Fun.(*ast.SelectorExpr); ok && strings.HasSuffix(se.Sel.Name, "Mut") && t.isState(t.norm(se.X)) {
+				t.call(ce, env) // in-place update of a written field: the new value is recorded by `call`
+				return t.seq(rest, env, ind, depth)
+			}
+		}
 		t.fail("unsupported expression statement %s", show(s))
+	case *ast.DeferStmt:
+		// `defer func() { r := recover(); if r != nil { …; err = … } }()`: a panic becomes an error return (both `none`)
+		fl, ok := s.Call.Fun.(*ast.FuncLit)
+		if !ok || depth != 0 || !t.hasErr || len(s.Call.Args) != 0 || !strings.Contains(show(fl.Body), "recover()") {
+			t.fail("unsupported defer %s", strings.SplitN(show(s), "\n", 2)[0])
+		}
+		t.recovers = true
+		return t.seq(rest, env, ind, depth)
+	case *ast.BranchStmt:
+		if s.Tok == token.CONTINUE && t.inLoop && s.Label == nil {
+			return t.retState(env, ind)
+		}
+		t.fail("unsupported branch statement %s", show(s))
 	case *ast.ReturnStmt:
 		return t.ret(s, env, ind)
 	case *ast.IfStmt:
@@ -1097,6 +1337,71 @@ func (t *xtr) seq(list []ast.Stmt, env *xenv, ind string, depth int) string {
 	return ""
 }
 
+// errOnlyCall: evaluates a call of an extern / tied function whose only result is an error (reports whether it was one)
+func (t *xtr) errOnlyCall(ce *ast.CallExpr, env *xenv) bool {
+	if x := t.externByKey(t.norm(ce.Fun)); x != nil && x.fallible && x.res == "" {
+		t.callExtern(x, t.externArgs(x, ce, env), ce)
+		return true
+	}
+	if d := t.callee(ce.Fun); d != nil && d.hasErr && len(d.resTys) == 0 {
+		t.callDone(d, ce.Args, env, ce)
+		return true
+	}
+	return false
+}
+
+func (t *xtr) ignored(ce *ast.CallExpr) bool {
+	n := t.norm(ce.Fun)
+	for _, ig := range t.spec.ignore {
+		if ig == n || strings.HasSuffix(n, "."+ig) {
+			return true
+		}
+	}
+	return false
+}
+
+// isPathPrefix: some bound expression or state variable is a field below `k`
+func (t *xtr) isPathPrefix(k string) bool {
+	if _, bound := t.binds[k]; bound {
+		return false
+	}
+	for b := range t.binds {
+		if strings.HasPrefix(b, k+".") {
+			return true
+		}
+	}
+	for b := range t.state {
+		if strings.HasPrefix(b, k+".") {
+			return true
+		}
+	}
+	return false
+}
+
+// stateAtoms: the current values of the state variables / written fields, in specification order
+func (t *xtr) stateAtoms(env *xenv) []string {
+	var atoms []string
+	for _, st := range t.stateOrd {
+		v, ok := t.stateVal(st.key, env)
+		if !ok {
+			t.fail("%s is neither written on this path nor an input", st.key)
+		}
+		atoms = append(atoms, v.lean)
+	}
+	return atoms
+}
+
+func (t *xtr) retState(env *xenv, ind string) string {
+	atoms := t.stateAtoms(env)
+	if len(atoms) == 0 {
+		return t.flush(ind) + ind + "some ()\n"
+	}
+	if len(atoms) == 1 {
+		return t.flush(ind) + ind + "some " + atoms[0] + "\n"
+	}
+	return t.flush(ind) + ind + "some (" + strings.Join(atoms, ", ") + ")\n"
+}
+
 func (t *xtr) ret(s *ast.ReturnStmt, env *xenv, ind string) string {
 	results := s.Results
 	if len(results) == 0 {
@@ -1117,10 +1422,15 @@ func (t *xtr) ret(s *ast.ReturnStmt, env *xenv, ind string) string {
 	if t.hasErr {
 		last := results[len(results)-1]
 		results = results[:len(results)-1]
-		if identName(last) != "nil" {
+		if ce, ok := last.(*ast.CallExpr); ok && len(results) == 0 && t.errOnlyCall(ce, env) {
+			// `return f(…)` with f returning only an error: f's failure is ours, its success is `nil`
+		} else if identName(last) != "nil" {
 			// a Go error return: the value positions are not evaluated
 			return t.flush(ind) + ind + "none\n"
 		}
+	}
+	if t.inLoop {
+		t.fail("a non-error return inside the loop body is not translated")
 	}
 	var atoms []string
 	for i, r := range results {
@@ -1147,7 +1457,15 @@ func (t *xtr) ret(s *ast.ReturnStmt, env *xenv, ind string) string {
 		if v.alloc == 0 {
 			t.fresh[i] = false
 		}
-		atoms = append(atoms, v.lean)
+		if ty == tyBool {
+			atoms = append(atoms, boolArg(v))
+		} else {
+			atoms = append(atoms, v.lean)
+		}
+	}
+	atoms = append(atoms, t.stateAtoms(env)...)
+	if len(atoms) == 0 {
+		return t.flush(ind) + ind + "some ()\n"
 	}
 	// peephole: `Option.bind (op) fun t => some t`  ⇒  `op`
 	if len(atoms) == 1 && len(t.pre) > 0 {
@@ -1173,7 +1491,8 @@ func translateFn(spec *xspec) *xdone {
 	if !ok {
 		xfail("no func %s in %s", spec.fn, spec.dir)
 	}
-	t := &xtr{p: p, spec: spec, fd: fd, pnames: map[string]string{}, binds: map[string]xparam{}}
+	t := &xtr{p: p, spec: spec, fd: fd, pnames: map[string]string{}, binds: map[string]xparam{}, aliases: map[string]string{},
+		state: map[string]xparam{}, pendingPre: -1}
 	if fd.Body == nil {
 		t.fail("no body")
 	}
@@ -1215,6 +1534,7 @@ func translateFn(spec *xspec) *xdone {
 		parts = append(parts, r)
 		sig = append(sig, "("+x.name+" : "+strings.Join(parts, " → ")+")")
 	}
+	seenName := map[string]bool{}
 	for _, pr := range spec.params {
 		if fields, ok := spec.structs[pr.ty]; ok {
 			g, ok := rev[pr.key]
@@ -1230,13 +1550,33 @@ func translateFn(spec *xspec) *xdone {
 			continue
 		}
 		t.binds[pr.key] = pr
-		sig = append(sig, "("+pr.name+" : "+leanTy(pr.ty)+")")
+		if !seenName[pr.name] { // two Go expressions that denote the same value share one Lean parameter
+			sig = append(sig, "("+pr.name+" : "+leanTy(pr.ty)+")")
+		}
+		seenName[pr.name] = true
+	}
+	// written receiver fields / loop state
+	for _, o := range spec.outs {
+		t.state[o.key] = o
+		t.stateOrd = append(t.stateOrd, o)
+	}
+	body := fd.Body.List
+	if spec.loop != nil {
+		body = t.enterLoop()
 	}
 	// results
-	if fd.Type.Results == nil {
-		t.fail("no results")
+	var resFields []*ast.Field
+	if fd.Type.Results != nil && spec.loop == nil {
+		resFields = fd.Type.Results.List
 	}
-	for _, f := range fd.Type.Results.List {
+	if spec.loop != nil && fd.Type.Results != nil {
+		for _, f := range fd.Type.Results.List { // an error return inside the loop body is `none`
+			if show(f.Type) == "error" {
+				t.hasErr = true
+			}
+		}
+	}
+	for _, f := range resFields {
 		n := len(f.Names)
 		if n == 0 {
 			n = 1
@@ -1261,8 +1601,8 @@ func translateFn(spec *xspec) *xdone {
 			}
 		}
 	}
-	if len(t.resTys) == 0 {
-		t.fail("no value result")
+	if len(t.resTys) == 0 && len(t.stateOrd) == 0 && !t.hasErr {
+		t.fail("no result and no written field")
 	}
 	var rts []string
 	for _, ty := range t.resTys {
@@ -1274,7 +1614,13 @@ func translateFn(spec *xspec) *xdone {
 		}
 		rts = append(rts, leanTy(ty))
 	}
-	body := t.seq(fd.Body.List, env, "  ", 0)
+	for _, st := range t.stateOrd {
+		rts = append(rts, leanTy(st.ty))
+	}
+	if len(rts) == 0 {
+		rts = []string{"Unit"}
+	}
+	bodyText := t.seq(body, env, "  ", 0)
 	var sb strings.Builder
 	if spec.doc != "" {
 		sb.WriteString("/-- " + spec.doc + " -/\n")
@@ -1284,10 +1630,62 @@ func translateFn(spec *xspec) *xdone {
 		rt = "(" + rt + ")"
 	}
 	sb.WriteString("def " + spec.lean + " " + strings.Join(sig, " ") + " : Option " + rt + " :=\n")
-	sb.WriteString(body)
-	d := &xdone{spec: spec, resTys: t.resTys, hasErr: t.hasErr, fresh: t.fresh, text: sb.String()}
+	sb.WriteString(bodyText)
+	d := &xdone{spec: spec, resTys: t.resTys, hasErr: t.hasErr, fresh: t.fresh, text: sb.String(), recovers: t.recovers}
+	for _, st := range t.stateOrd { // callers see the written fields as further results
+		d.resTys = append(d.resTys, st.ty)
+		d.fresh = append(d.fresh, false)
+	}
 	xregistry[spec.dir+":"+spec.fn] = d
 	return d
+}
+
+// enterLoop: loop-body mode.  Names the loop variables and the pre-loop locals, registers the state variables and
+// returns the statements of the loop body.
+func (t *xtr) enterLoop() []ast.Stmt {
+	var loop *ast.RangeStmt
+	for _, s := range t.fd.Body.List {
+		if rs, ok := s.(*ast.RangeStmt); ok {
+			if loop != nil {
+				t.fail("more than one top-level range loop")
+			}
+			loop = rs
+			continue
+		}
+		if loop != nil {
+			continue
+		}
+		if as, ok := s.(*ast.AssignStmt); ok && as.Tok == token.DEFINE && len(as.Lhs) == 1 && len(as.Rhs) == 1 {
+			if name, ok := t.spec.loop.pre[t.norm(as.Rhs[0])]; ok {
+				t.pnames[identName(as.Lhs[0])] = name
+			}
+		}
+	}
+	if loop == nil {
+		t.fail("no top-level range loop")
+	}
+	if loop.Tok != token.DEFINE {
+		t.fail("the range loop does not declare its variables")
+	}
+	if x := identName(loop.X); x != "" {
+		if _, isParam := t.pnames[x]; !isParam {
+			t.pnames[x] = "$r"
+		}
+	}
+	if k := identName(loop.Key); k != "" && k != "_" {
+		t.pnames[k] = "$k"
+	}
+	if loop.Value != nil {
+		if v := identName(loop.Value); v != "" && v != "_" {
+			t.pnames[v] = "$v"
+		}
+	}
+	for _, st := range t.spec.loop.state {
+		t.state[st.key] = st
+		t.stateOrd = append(t.stateOrd, st)
+	}
+	t.inLoop = true
+	return loop.Body.List
 }
 
 // ---------------------------------------------------------------- Deliverable B: operator lists with comparisons and operands
